@@ -1074,6 +1074,10 @@ impl LowerHex for Number {
                 fmt::LowerHex::fmt(&num.unsigned_abs(), f)
             }
             Number::Float(num) => {
+                // infinities and NaN have no digits: the fraction loop would never reach zero
+                if !num.is_finite() {
+                    return write!(f, "{}", self);
+                }
                 if *num < 0_f64 {
                     write!(f, "-")?;
                 }
@@ -1107,6 +1111,10 @@ impl Octal for Number {
                 fmt::Octal::fmt(&num.unsigned_abs(), f)
             }
             Number::Float(num) => {
+                // infinities and NaN have no digits: the fraction loop would never reach zero
+                if !num.is_finite() {
+                    return write!(f, "{}", self);
+                }
                 if *num < 0_f64 {
                     write!(f, "-")?;
                 }
@@ -1140,6 +1148,10 @@ impl Binary for Number {
                 fmt::Binary::fmt(&num.unsigned_abs(), f)
             }
             Number::Float(num) => {
+                // infinities and NaN have no digits: the fraction loop would never reach zero
+                if !num.is_finite() {
+                    return write!(f, "{}", self);
+                }
                 if *num < 0_f64 {
                     write!(f, "-")?;
                 }
